@@ -108,7 +108,9 @@ def alias_case(spec, edge, mode, variant=0):
                 scribble(c)
         elif mode in ("synced_same", "synced_other"):
             # the source is a live synced collection: changing it must not change the stored copy ...
-            for c in containers_in(src_obj)[:1]:
+            # (a source in ANOTHER collection: every container below it, nested children included - a bulk operation
+            #  that stores the source's live children by reference shows only there)
+            for c in (containers_in(src_obj) if mode == "synced_other" else containers_in(src_obj)[:1]):
                 scribble(c)
             if mode == "synced_same":
                 exp["src"] = copy.deepcopy(xval)
@@ -139,6 +141,12 @@ def alias_case(spec, edge, mode, variant=0):
                     dst = target[val.key_to_py(lab["k"])]
                 elif lab["op"] == "append":
                     dst = target[-1]
+                elif lab["op"] == "update" and isinstance(xval, dict):
+                    # bulk store: the first stored value that is a container
+                    for k_, v_ in xval.items():
+                        if isinstance(v_, (dict, list)):
+                            dst = target[k_]
+                            break
             except Exception:  # noqa: BLE001
                 dst = None
             if dst is not None and containers_in(dst):
